@@ -8,6 +8,20 @@ export CARGO_NET_OFFLINE=true CARGO_BUILD_JOBS=8
 git -C /repo worktree remove --force $WT 2>/dev/null
 git -C /repo worktree add -q --detach $WT HEAD || exit 2
 declare -A DEMO=(
+ [C14g_nonblocking_guard_restores_seen_mode]="-p yash-env --test c14g_shared_pipe_nonblocking"
+ [C13g_wait_returns_at_unknown_operand]="-p yash-builtin --test c13g_wait_unknown_then_known"
+ [C12g_bg_sets_bang_before_validation]="-p yash-builtin --test c12g_bg_last_async_pid"
+ [C11g_trap_stops_at_refused_condition]="-p yash-builtin --test c11g_trap_multi_condition"
+ [C10g_no_exit_trap_after_shell_error]="-p yash-cli -E binary(c10g_exit_trap_on_shell_error)"
+ [C09g_failed_exec_undoes_redirections]="-p yash-builtin --test c09g_exec_failed_interactive"
+ [C08g_nonblocking_guard_restores_seen_mode]="-p yash-builtin --test c08g_subshell_nonblocking_leak"
+ [C07g_typeset_separator_tests_quoted_name]="-p yash-builtin --test c07g_typeset_listing"
+ [C06g_async_job_name_first_pipeline]="-p yash-semantics --test c06g_async_job_name"
+ [C05g_tilde_result_soft_when_slash_stripped]="-p yash-semantics --test c05g_tilde_trailing_slash"
+ [C03g_decimal_fast_path_signed_octal]="-p yash-semantics --test c03g_signed_octal_constant"
+ [C02g_pipefail_max_status]="-p yash-builtin --test c02g_pipefail_status"
+ [C01g_append_glues_to_first_field]="-p yash-semantics --test c01g_adjacent_at"
+ [C04g_trim_second_symbol_either]="-p yash-semantics --test c04g_trim_operator"
  [C07f_ineffective_trap_keeps_parent_listing]="-p yash-builtin --test c07f_trap_listing_after_ineffective_trap"
  [C06f_inner_program_end_by_source_position]="-p yash-syntax -E binary(c06f_alias_then_command_subst)"
  [C02f_blank_line_clears_executed_flag]="-p yash-semantics --test c02f_status_after_trailing_blank_line"
